@@ -20,6 +20,7 @@ PROPS["C03"] = dict(
     theorems=['Goflow.C03.field_roundtrip', 'Goflow.C03.optionField_roundtrip', 'Goflow.C03.templateSet_roundtrip', 'Goflow.C03.optionsTemplateSet_roundtrip_v9', 'Goflow.C03.optionsTemplateSet_roundtrip_ipfix', 'Goflow.C03.record_roundtrip', 'Goflow.C03.encRecord_length_ge', 'Goflow.C03.dataSet_roundtrip', 'Goflow.C03.optionsDataSet_roundtrip', 'Goflow.C03.flowSet_roundtrip', 'Goflow.C03.messageCommon_roundtrip', 'Goflow.C03.roundtrip'],
     generators=[dict(name="C03", quick=1500, thorough=100000)],
     harness=["impl"],
+    level_text="Theorem roundtrip: decode (encode m) = m for every well-formed NetFlow v9 / IPFIX message against an RFC encoder (template store update, padding, enterprise bit, variable length), plus the differential run of the encoder's output through the Go decoder.",
 )
 
 PROPS["C04"] = dict(
@@ -28,6 +29,7 @@ PROPS["C04"] = dict(
               'Goflow.C04.flowRecord_roundtrip', 'Goflow.C04.counterRecord_roundtrip', 'Goflow.C04.sample_roundtrip', 'Goflow.C04.roundtrip', 'Goflow.C04.exampleDatagram_wf'],
     generators=[dict(name="C04", quick=2000, thorough=150000)],
     harness=["impl"],
+    level_text="Theorem roundtrip: decodeMessageVersion (encode d) = ok (expected d) for every well-formed sFlow v5 datagram (all five sample kinds, eleven flow record kinds, counter records), plus the differential run against the Go decoder.",
 )
 
 PROPS["C07"] = dict(
@@ -35,6 +37,7 @@ PROPS["C07"] = dict(
     theorems=['Goflow.C07.produce_order_v5', 'Goflow.C07.produce_length_v5', 'Goflow.C07.count_any_bytes_v5', 'Goflow.C07.produce_length_netflow', 'Goflow.C07.count_any_bytes_netflow', 'Goflow.C07.produce_length_sflow', 'Goflow.C07.no_output_on_fatal_error'],
     generators=[dict(name="C07", quick=60, thorough=4000)],
     harness=["impl"],
+    level_text="Theorems: message count = record count and order for v5, v9 / IPFIX and sFlow, never more messages than complete records for any byte string. Histories with count oracles are the tie.",
 )
 
 PROPS["C10"] = dict(
@@ -42,6 +45,7 @@ PROPS["C10"] = dict(
     theorems=['Goflow.C10.parser_table_matches', 'Goflow.C10.guards_cover_indices', 'Goflow.C10.encap_preserves_outer', 'Goflow.C10.icmp_terminal', 'Goflow.C10.icmp_first_only', 'Goflow.C10.encap_rule', 'Goflow.C10.encap_monotone', 'Goflow.C10.layer_sizes'],
     generators=[dict(name="C10", quick=150, thorough=10000)],
     harness=["impl"],
+    level_text="Theorems: parser table and loop body equal the regenerated ones; guards cover every index; encapsulation flags along parser chains (encap_rule, encap_monotone, encap_preserves_outer); ICMP rules; layer sizes; full_capture (every well-formed fully captured frame of the grammar, incl. extension headers, MPLS, GRE / IP-in-IP nesting, is reported exactly as the frame specification says) when Proofs.C10Full is listed in the evidence. Truncated captures: tied by the frame oracle at every capture length (and by C10Trunc when listed).",
 )
 
 PROPS["C06"] = dict(
@@ -49,6 +53,7 @@ PROPS["C06"] = dict(
     theorems=['Goflow.C06.templateKey_injective', 'Goflow.C06.store_refines', 'Goflow.C06.latest_wins', 'Goflow.C06.isolation', 'Goflow.C06.addTemplates_other', 'Goflow.C06.unknown_template', 'Goflow.C06.exporter_isolation'],
     generators=[dict(name="C06", quick=40, thorough=3000)],
     harness=["impl"],
+    level_text="Theorems: the template store refines a map keyed by (version, domain, id) per exporter; latest announcement wins; announcements never affect another key or exporter. Histories (re-announcements, broken-tail datagrams, foreign ids) are the tie.",
 )
 
 PROPS["C08"] = dict(
@@ -57,6 +62,7 @@ PROPS["C08"] = dict(
               'Goflow.C08.record_eq_ref', 'Goflow.C08.convertFields_record_eq_ref', 'Goflow.C08.packet_eq_ref', 'Goflow.C08.recordOK_of_check', 'Goflow.C08.apply_cases'],
     generators=[dict(name="C08", quick=400, thorough=40000)],
     harness=["impl"],
+    level_text="Theorems: the conversion's case table equals the table regenerated from the source; v5_record_eq_ref; record_eq_ref / packet_eq_ref — for every v9 / IPFIX record of the documented domain the conversion equals the documented reference, whatever the template order; number decoding at every width; time rules.",
 )
 
 PROPS["C09"] = dict(
@@ -64,6 +70,7 @@ PROPS["C09"] = dict(
     theorems=['Goflow.C09.record_eq_ref', 'Goflow.C09.records_eq_ref', 'Goflow.C09.sample_eq_ref', 'Goflow.C09.expanded_sample_eq_ref', 'Goflow.C09.non_flow_samples_yield_nothing', 'Goflow.C09.as_rules'],
     generators=[dict(name="C09", quick=400, thorough=40000)],
     harness=["impl"],
+    level_text="Theorems: record_eq_ref, records_eq_ref, sample_eq_ref, expanded_sample_eq_ref, non_flow_samples_yield_nothing, as_rules — sFlow samples map as documented for every sample and record list (frames inside raw headers are C10's subject).",
 )
 
 PROPS["C11"] = dict(
@@ -71,6 +78,7 @@ PROPS["C11"] = dict(
     theorems=['Goflow.C11.rates_refine', 'Goflow.C11.rate_zero_before_any', 'Goflow.C11.rate_of_message', 'Goflow.C11.rate_isolation', 'Goflow.C11.search_order', 'Goflow.C11.v5_rate'],
     generators=[dict(name="C11", quick=40, thorough=3000)],
     harness=["impl"],
+    level_text="Theorems: rates_refine (the sampling state is a map keyed by version and domain per exporter address), rate_of_message, rate_isolation, search_order (305, 50, 34; reduced-size encodings), v5_rate. Histories with a reference map are the tie.",
 )
 
 PROPS["C12"] = dict(
@@ -79,6 +87,7 @@ PROPS["C12"] = dict(
     generators=[dict(name="C12", quick=60, thorough=4000)],
     harness=["impl"],
     confirm_alone=True,
+    level_text="Theorems: reset_total, pool_independent (the messages of a datagram are a function of the datagram, the receive metadata, the configuration and the exporter's templates and rates only), sflow_stateless. The model has no pool; histories with pool poisoning, half-failed datagrams and custom fields printed as JSON / text are the tie, and a differing stateless datagram is re-run alone in a fresh process.",
 )
 
 PROPS["C13"] = dict(
@@ -92,6 +101,7 @@ PROPS["C13"] = dict(
               "Goflow.C13.unmarshal_marshal", "Goflow.C13.stream_roundtrip", "Goflow.C13.exMsg_ok"],
     generators=[dict(name="C13", quick=40, thorough=1500)],
     harness=["impl"],
+    level_text="Theorems: frame_split / stream_roundtrip (a stream of N frames reads back as the N messages, unmarshal_marshal with a reader written from the protobuf encoding rules), jsonQuote_valid (every byte string is written as one JSON string literal), formatJSON_valid_sharp (the JSON form is accepted by the recogniser for every formatter with plain names and every message whose list-valued fields are printed as arrays), default_valid (unconditional for the default configuration), forms_agree (JSON and text are two syntaxes of one list of rendered fields). PARTIAL: the recogniser is tied to encoding/json by comparison on edge cases and mutations, the renderings to the documentation by oracles computed with Python's ipaddress / datetime.",
 )
 
 PROPS["C14"] = dict(
@@ -104,6 +114,7 @@ PROPS["C14"] = dict(
               "Goflow.C14Map.lookupNetflow_last", "Goflow.C14Map.effectOf_custom", "Goflow.C14Map.effectOf_numeric"],
     generators=[dict(name="C14", quick=42, thorough=1260)],
     harness=["impl"],
+    level_text="Theorems: getBytes_eq_extract (GetBytes = bit-list reference for every buffer, offset, length, mode), mapCustom_spec, mapLayerEntries_spec / mapLayerKeys_spec, element_mapping_spec, custom_record_spec, custom_varint_readback / custom_bytes_readback, key_function. PARTIAL: the compile step of the configuration and the whole-frame composition of layer mappings are tied by the differential run and the reference oracles (bit reference incl. exhaustive digests over all 1- and 2-byte buffers), not proved.",
 )
 
 PROPS["C16"] = dict(
@@ -114,6 +125,7 @@ PROPS["C16"] = dict(
     count_all=True,
     harness=["impl"],
     rule="every plan (interleaving of start-until-parked / release-until-returned events) for 2 and 3 workers, for the pipe's template systems and the producer's sampling systems, forced on the real code through the public factory callbacks; exhaustive",
+    level_text="Theorems: an inductive invariant of the get-or-create protocol for every number of workers and every schedule: one system per exporter is published, nothing registered is lost (publish_once, single_system, nothing_lost); lost_update_possible for the pinned protocol. Every plan for 2 and 3 workers is forced on the real code through the factory callbacks.",
 )
 
 PROPS["C19"] = dict(
@@ -126,6 +138,7 @@ PROPS["C19"] = dict(
     watchdog_ms=30000,
     assumptions=["a single write(2) on an O_APPEND descriptor is atomic with respect to other writers of the same file",
                  "fmt.Fprint issues one Write call for its whole argument"],
+    level_text="Theorems over the file transport's transition system for every number of senders, rotations and interleavings: no write on a closed file, every message written exactly once, every unit in one file; closed_write_possible for the pinned protocol. Runtime tie: plans forced through the file.send.picked / file.reopened hooks and an unscheduled stress run with messages up to 33 KB. Assumes a write(2) on an O_APPEND descriptor is atomic.",
 )
 
 PROPS["C17"] = dict(
@@ -139,6 +152,7 @@ PROPS["C17"] = dict(
     watchdog_ms=120000,
     assumptions=["kernel-level loss before ReadFromUDP is outside the model; the udp.read hook gives the exact number of datagrams taken from the kernel",
                  "Go channels, sync.Pool and sync.WaitGroup behave as documented (they are the step rules of the transition system)"],
+    level_text="Theorems over the receiver's transition system (readers, queue, workers, Stop) for every reader / worker count, queue capacity and schedule: conservation (each datagram read is decoded once or dropped once), decoded / dropped disjoint, blocking mode never drops, buffers are exclusive. PARTIAL: the atomic steps are validated against real sockets through the udp.read hook, kernel behaviour is outside the model.",
 )
 
 import e2e
@@ -155,6 +169,7 @@ PROPS["C18"] = dict(
     extra=[e2e.sigterm_backlog],
     watchdog_ms=60000,
     assumptions=["decoder calls return (the `finish` step is always eventually taken); socket rebinding and process exit are runtime behaviour seen only by the harness"],
+    level_text="Theorems: start_stop_results (every Start / Stop sequence returns what the specification says), quit_open_after_every_call, stop_drains, stop_not_stuck, shutdown_order and the synchronisation skeletons regenerated from the source. Runtime tie: every call sequence up to length 4 on real receivers with traffic and a liveness check, and an end-to-end SIGTERM-with-backlog run of the goflow2 binary. PARTIAL: process exit and socket rebinding are observed, not proved.",
 )
 
 PROPS["C20"] = dict(
@@ -191,7 +206,7 @@ PROPS["C01"] = dict(
               "Goflow.C01.mapCustom_sane", "Goflow.C01.parseLoop_sane", "Goflow.C01.parsePacket_sane", "Goflow.C01.produce_sane", "Goflow.C01.pipe_sane", "Goflow.C01.pipe_history_sane"],
     generators=[dict(name="C01", quick=40, thorough=3000)],
     harness=["impl"],
-    level_text="Theorems: for every byte string, every template/sampling state and every history the decoders, the dissector, the conversion and the pipes of the model end in a result or a returned error (panic and fuel exhaustion are explicit outcomes of the model and proved unreachable; loops need at most |d|+2 iterations). Configurations with custom mappings: the same theorems under `Sane` (non-negative bit offsets and lengths, destinations other than the two unexported struct members) in Proofs/C01Sane.lean. PARTIAL only in that wall-clock time of the real process is watched by a watchdog, not proved.",
+    level_text="Theorems: for every byte string, every template / sampling state and every history the decoders, the dissector, the conversion and the pipes of the model end in a result or a returned error (panic and fuel exhaustion are explicit outcomes of the model and proved unreachable; loops need at most 2|d|+3 iterations) — without mappings (pipe_history_safe) and with mappings under Sane: non-negative bit offsets / lengths, destinations other than the two unexported struct members (pipe_history_sane). PARTIAL only in that wall-clock time of the real process is watched by a watchdog, not proved.",
 )
 
 PROPS["C02"] = dict(
